@@ -15,6 +15,7 @@ from vt.dtmodel import MIN, TD, US
 from vt.props import _sched
 
 ID = "C13"
+CROSSCHECK = 40  # thorough tier: obligations per case re-decided by the cvc5 binary
 LEVEL = "other"
 TECHNIQUE = "path-wise symbolic execution of get_task_delay (cron branch) with z3; pycron/pytz as uninterpreted functions"
 EXPLANATION = (
